@@ -1,4 +1,5 @@
 import Resolvo.Data.CowVector
+import Resolvo.Data.CowVectorProofs
 import Resolvo.ModelFacts
 /-!
 # C17 — the C++ binding computes what the Rust API computes, memory-safely
@@ -11,8 +12,12 @@ What is proved here is small and stated as such:
 * `ModelFacts.vector_header_agrees`: the Rust and C++ header structs list the same fields in the same
   order (regenerated from both sources on every run);
 * `frame`: at the spec level an operation changes only the handles it names.
-The refinement "refcounted heap model ⊑ value-semantics spec" (`Data/CowVector.lean`) is **checked on
-every generated sequence** by the driver (`heap'.wf && heap'.abs == spec'`) but not yet proved.
+* `cow_refines`: the refcounted heap model of the header's algorithms (`Data/CowVector.lean`: share on copy,
+  `detach` before a write, release-then-acquire copy assignment, swap on move, the uncounted static empty
+  block) **refines the value-semantics spec for every sequence of operations on existing handles**, keeps
+  the reference-count invariant, never touches a freed block and never leaks one (`Data/CowVectorProofs.lean`,
+  by composing the primitive steps under an invariant with ghost references for temporaries). The driver
+  additionally evaluates `wf`/`abs` on every generated sequence (a test of the same statement).
 Everything about real memory (use-after-free, leaks, UB, ABI) is explored with
 ASan/UBSan/LeakSanitizer on the real headers; three genuine defects were found and repaired.
 -/
@@ -62,5 +67,24 @@ theorem frame (s : Spec) (op : Op) (k : Nat) (hk : match op with
        · rfl
        · rw [List.getD_eq_getElem?_getD, List.getD_eq_getElem?_getD, List.getElem?_set_ne (Ne.symm hk.2),
            List.getElem?_set_ne (Ne.symm hk.1)])
+
+/-- the refcounted heap model refines the value-semantics spec: for every number of handles and every
+    sequence of operations that name existing handles, the heap reached from the initial heap satisfies the
+    copy-on-write invariant, denotes exactly the spec's contents, has touched no freed block, has no handle
+    to a freed block and has leaked nothing -/
+theorem cow_refines (n : Nat) (ops : List Op) (hv : ∀ op ∈ ops, op.valid n) :
+    let hp := ops.foldl heapStep (Heap.init n)
+    Inv hp ∧ hp.abs = ops.foldl specStep (List.replicate n []) ∧
+      hp.uaf = false ∧ (∀ h, h < hp.handles.length → (hp.block (hp.blockOf h)).freed = false) ∧ hp.leaked = [] := by
+  have hlen : (Heap.init n).handles.length = n := by simp [Heap.init]
+  have r := run_refines ops (Heap.init n) (inv_init n) (fun op ho => by rw [hlen]; exact hv op ho)
+  have s := inv_safe _ r.1
+  exact ⟨r.1, by rw [r.2, abs_init], s.1, s.2.1, s.2.2⟩
+
+/-- non-vacuity: a sequence with sharing, self-assignment, push of an own element's value, a write through a
+    shared handle and a clear meets the hypothesis, and the two levels compute the same contents -/
+example : (∀ op ∈ [Op.init 0 [1, 2], .copy 1 0, .assign 1 1, .push 0 1, .set 1 0 9, .move 2 1, .clear 0], op.valid 3) ∧
+    ([Op.init 0 [1, 2], .copy 1 0, .assign 1 1, .push 0 1, .set 1 0 9, .move 2 1, .clear 0].foldl heapStep (Heap.init 3)).abs
+      = [[], [], [9, 2]] := by decide
 
 end Resolvo.C17
